@@ -203,6 +203,16 @@ class Model:
                 return None
         return keys
 
+    def alias_sources(self) -> list[ast.AST]:
+        """expressions that read the 'aliases' option from the options dict"""
+        out = []
+        for n in _walk_own(self.fn.body):
+            if isinstance(n, ast.expr):
+                src = self.option_source(n)
+                if src is not None and src[0] == "aliases":
+                    out.append(n)
+        return out
+
     def _find_alias_mapping(self) -> None:
         for name, bs in self.binds.items():
             if len(bs) == 1 and bs[0].kind == "assign" and bs[0].value is not None:
